@@ -177,6 +177,22 @@ Lemma pack_consts :
   forallb enc_sample_ok enc_samples = true /\ forallb dec_sample_ok dec_samples = true.
 Proof. vm_compute. repeat split; reflexivity. Qed.
 
+(** the two accessors without a caller, _isout and _lpath: they are the third and the second component of decodeValues
+    for every word, hence invert encodeValues on in-range fields; and the model's transcriptions agree with the build
+    under test on the dumped sample words (Gen/Tables.v) *)
+Definition acc_sample_ok (e : N * bool * N) : bool :=
+  let '(w, io, lp) := e in Bool.eqb (isout w) io && (lpath w =? lp).
+Lemma pack_accessors :
+  (forall v, dec v = (N.land (N.shiftr v 16) mask16, lpath v, isout v)) /\
+  (forall s l o, s < 65536 -> l <= 65534 -> isout (enc s l o) = o /\ lpath (enc s l o) = l) /\
+  forallb acc_sample_ok acc_samples = true.
+Proof.
+  split; [reflexivity |]. split; [| vm_compute; reflexivity].
+  intros s l o Hs Hl. pose proof (dec_enc s l o Hs Hl) as H.
+  change (dec (enc s l o)) with (N.land (N.shiftr (enc s l o) 16) mask16, lpath (enc s l o), isout (enc s l o)) in H.
+  injection H as _ H2 H3. split; assumption.
+Qed.
+
 (** the side condition of incscore_enc is necessary: the 65536th match carries out of the score field into the
     in-band flag - the cell becomes an "out" cell with score 0 (the mechanism of the known finding lcs-16bit-fields) *)
 Lemma score_field_overflow : exists s l, s = 65535 /\ l <= 65534 /\
